@@ -293,7 +293,18 @@ func (s *Server) referrerAdd(repo store.Repo, subject digest.Digest, desc types.
 		}()
 	}
 	// add descriptor to index and push into blob store
-	refResp.AddDesc(desc)
+	// entries are matched on the digest only, the annotations are from the manifest and have no meaning to the index
+	found := false
+	for i := range refResp.Manifests {
+		if refResp.Manifests[i].Digest == desc.Digest {
+			refResp.Manifests[i] = desc
+			found = true
+			break
+		}
+	}
+	if !found {
+		refResp.Manifests = append(refResp.Manifests, desc)
+	}
 	iRaw, err := json.Marshal(refResp)
 	if err != nil {
 		return err
@@ -362,7 +373,12 @@ func (s *Server) referrerDelete(repo store.Repo, subject digest.Digest, desc typ
 		return err
 	}
 	// remove descriptor from response
-	refResp.RmDesc(desc)
+	// entries are matched on the digest only, the annotations are from the manifest and have no meaning to the index
+	for i := len(refResp.Manifests) - 1; i >= 0; i-- {
+		if refResp.Manifests[i].Digest == desc.Digest {
+			refResp.Manifests = append(refResp.Manifests[:i], refResp.Manifests[i+1:]...)
+		}
+	}
 	// push response back to blob store with a new digest
 	refRespRaw, err = json.Marshal(refResp)
 	if err != nil {
